@@ -1,7 +1,7 @@
 //! C19: the built `wac` binary against in-process library calls.
 //!
-//! The binary is built from `$WACV_REPO` (cargo, offline, default features, into
-//! `$WACV_TARGET/c19-wac`) and run in a scratch directory over all combinations of the documented
+//! The binary is built from `$WACV_REPO` (cargo, offline, `--no-default-features --features wit`,
+//! into `$WACV_TARGET/c19-wac`, by `--prebuild 1`) and run in a scratch directory over all combinations of the documented
 //! flags of `compose` (x dependency-location variants x compositions that succeed or fail at each
 //! stage), `plug`, `targets` and `parse`.  For every run the harness also performs the library
 //! pipeline in-process — for `compose` once per choice of `EncodeOptions` (define_components x
@@ -157,6 +157,8 @@ impl Ctx {
             .env("XDG_CONFIG_HOME", cwd.join(".config"))
             .env("XDG_CACHE_HOME", cwd.join(".cache"))
             .env("NO_COLOR", "1")
+            // fewer runtime threads to spawn per process on a loaded machine (environment only)
+            .env("TOKIO_WORKER_THREADS", "2")
             .env_remove("RUST_LOG")
             .env_remove("RUST_BACKTRACE")
             .stdin(std::process::Stdio::null())
@@ -302,25 +304,36 @@ fn main() {
         eprintln!("c19: WACV_REPO / WACV_VERIF / WACV_TARGET must be set (run through ./check)");
         std::process::exit(2);
     };
-    // build the real binary (default features, as installed by `cargo install wac-cli`)
+    // The real binary, built from the repository under test into `$WACV_TARGET/c19-wac` with
+    // `--no-default-features --features wit`: the default features minus `registry`.  The
+    // registry feature only adds the `--registry URL` option and the registry fallback for
+    // packages that are not found locally — neither is exercised here (there is no registry in
+    // the sandbox) — and leaving it out avoids compiling the Warg client tree.
+    // Built by `--prebuild 1`; a normal run only checks the source stamp.
     let tdir = PathBuf::from(&env.target).join("c19-wac");
-    let st = Command::new("cargo")
-        .args(["build", "--offline", "--quiet", "-j", "6", "--bin", "wac", "--manifest-path"])
-        .arg(PathBuf::from(&env.repo).join("Cargo.toml"))
-        .arg("--target-dir")
-        .arg(&tdir)
-        .env("CARGO_NET_OFFLINE", "true")
-        .env_remove("RUSTFLAGS")
-        .output()
-        .expect("cargo");
-    if !st.status.success() {
-        eprintln!("c19: building the wac binary failed:\n{}", String::from_utf8_lossy(&st.stderr));
+    let wac_bin = tdir.join("debug/wac");
+    let stamp = small_util::source_stamp(&small_util::repo_sources(&env, true), "wac --no-default-features --features wit");
+    let (repo, tdir2) = (env.repo.clone(), tdir.clone());
+    let built = small_util::ensure_built(&PathBuf::from(&env.target), "c19-wac", &stamp, &[wac_bin.clone()], move || {
+        let manifest = PathBuf::from(&repo).join("Cargo.toml");
+        small_util::cargo(
+            Path::new(&repo),
+            &tdir2,
+            &["--bin", "wac", "--no-default-features", "--features", "wit", "--manifest-path", &manifest.to_string_lossy()],
+            None,
+        )
+    });
+    if let Err(e) = built {
+        eprintln!("c19: building the wac binary failed:\n{e}");
         std::process::exit(3);
+    }
+    if args.extra.contains_key("prebuild") {
+        return;
     }
     let scratch = small_util::scratch_base().join(format!("c19-{}-{}", std::process::id(), shard));
     let _ = fs::remove_dir_all(&scratch);
     fs::create_dir_all(&scratch).unwrap();
-    let mut ctx = Ctx { wac: tdir.join("debug/wac"), scratch: scratch.clone(), intern: Intern::default(), n: 0 };
+    let mut ctx = Ctx { wac: wac_bin.clone(), scratch: scratch.clone(), intern: Intern::default(), n: 0 };
     let mut out = Out::create(&args.out, &format!("c19-s{shard}-"));
     let mut r = Rng::new(args.seed ^ 0xC19);
     let thorough = args.thorough();
@@ -336,6 +349,16 @@ fn main() {
     let name2 = comp(NAME2_WAT);
     let other = comp(OTHER_WAT);
 
+    // `--replay FILE`: only the cases whose tag (first field) occurs in a CASE line of the file
+    let replay_tags: Option<std::collections::HashSet<String>> = args.replay.as_ref().map(|p| {
+        fs::read_to_string(p)
+            .unwrap_or_default()
+            .lines()
+            .filter_map(|l| l.strip_prefix("CASE\t"))
+            .filter_map(|l| l.split('\t').nth(3).map(|t| t.to_string()))
+            .collect()
+    });
+    let wanted = |tag: &str| replay_tags.as_ref().map(|s| s.contains(&esc(tag))).unwrap_or(true);
     let mut idx = 0usize;
     let mut mine = |idx: &mut usize| {
         *idx += 1;
@@ -360,15 +383,29 @@ fn main() {
         DepsVariant { label: "wrong-deps-dir", dir: "deps", flag: Some("nowhere"), deps: vec![], omit_name_from_dir: false },
         DepsVariant { label: "dangling-dep", dir: "deps", flag: None, deps: vec![("t:name", "elsewhere/missing.wasm")], omit_name_from_dir: false },
     ];
-    let all_compositions = compositions(&mut r, if thorough { 40 } else { 3 });
+    let all_compositions = compositions(&mut r, if thorough { 40 } else { 1 });
+    let mut combo_no = 0usize;
+    let mut lib_cache: HashMap<(String, &'static str, &'static str), Vec<Result<Vec<u8>, &'static str>>> = HashMap::new();
     for (clabel, source) in all_compositions.clone() {
         for v in &variants {
+            combo_no += 1;
             // the flag product is complete for the main variants and sampled (1/2) for the others in quick
             for mask in 0..16u32 {
                 let (no_validate, wat, import_deps, with_output) = (mask & 1 != 0, mask & 2 != 0, mask & 4 != 0, mask & 8 != 0);
                 let take = mine(&mut idx);
-                let sampled = !thorough && !matches!(v.label, "default-dir" | "deps-dir-flag" | "dep-override") && r.chance(1, 2);
-                if !take || sampled {
+                // quick: the full flag product for the default layout, a rotating quarter of it for
+                // the other dependency-location variants (every combination still occurs for
+                // every variant across the compositions); thorough and replay: everything
+                let fails_early = matches!(clabel, "parse-error" | "unknown-package" | "resolve-error" | "missing-argument");
+                let keep_every = match (v.label == "default-dir", fails_early) {
+                    (true, false) => 1,
+                    (true, true) => 2,
+                    (false, false) => 4,
+                    (false, true) => 16,
+                };
+                let sampled = !thorough && replay_tags.is_none() && (mask as usize + combo_no) % keep_every != 0;
+                let tag = format!("{clabel}|{}|{mask}|{}", v.label, source.len());
+                if !take || sampled || !wanted(&tag) {
                     continue;
                 }
                 ctx.n += 1;
@@ -422,6 +459,7 @@ fn main() {
                     used.push((k.to_string(), p.to_string()));
                 }
                 let mut f: Vec<String> = vec![
+                    esc(&tag),
                     esc(v.flag.unwrap_or("")),
                     v.deps.len().to_string(),
                 ];
@@ -436,12 +474,19 @@ fn main() {
                     f.push(esc(k));
                     f.push(esc(p));
                 }
-                let mut results = Vec::new();
-                for define in [true, false] {
-                    for validate in [true, false] {
-                        results.push(lib_compose(&cwd, path, deps_dir, &used, define, validate));
+                // the library results do not depend on the flag combination, only on the
+                // composition, the dependency layout and the source path
+                let cache_key = (source.clone(), v.label, path);
+                if !lib_cache.contains_key(&cache_key) {
+                    let mut rs = Vec::new();
+                    for define in [true, false] {
+                        for validate in [true, false] {
+                            rs.push(lib_compose(&cwd, path, deps_dir, &used, define, validate));
+                        }
                     }
+                    lib_cache.insert(cache_key.clone(), rs);
                 }
+                let results = lib_cache.get(&cache_key).unwrap().clone();
                 for res in &results {
                     f.push(lib_field(&mut ctx.intern, res));
                 }
@@ -494,7 +539,8 @@ fn main() {
     for (label, socket, plugs) in &plug_cases {
         for mask in 0..4u32 {
             let (wat, with_output) = (mask & 1 != 0, mask & 2 != 0);
-            if !mine(&mut idx) {
+            let tag = format!("{label}|{mask}");
+            if !mine(&mut idx) || !wanted(&tag) {
                 continue;
             }
             ctx.n += 1;
@@ -532,7 +578,7 @@ fn main() {
                     None => groups.push((stem, vec![p.to_string()])),
                 }
             }
-            let mut f: Vec<String> = vec![plugs.len().to_string()];
+            let mut f: Vec<String> = vec![esc(&tag), plugs.len().to_string()];
             for p in plugs {
                 f.push(esc(p));
             }
@@ -583,7 +629,8 @@ fn main() {
     ];
     for (label, component, wit, world) in &target_cases {
         for as_dir in [false, true] {
-            if !mine(&mut idx) {
+            let tag = format!("{label}|{as_dir}");
+            if !mine(&mut idx) || !wanted(&tag) {
                 continue;
             }
             ctx.n += 1;
@@ -602,7 +649,7 @@ fn main() {
             let o = ctx.run_wac(&cwd, &argv);
             // in-process: the worlds of the WIT package and, per world, `validate_target`
             let (loadable, worlds) = lib_targets(&cwd, component, wit_path);
-            let mut f: Vec<String> = vec![esc(component), esc(wit_path), esc(world.unwrap_or("")), b(loadable), worlds.len().to_string()];
+            let mut f: Vec<String> = vec![esc(&tag), esc(component), esc(wit_path), esc(world.unwrap_or("")), b(loadable), worlds.len().to_string()];
             for (w, ok) in &worlds {
                 f.push(esc(w));
                 f.push(b(*ok));
@@ -624,7 +671,8 @@ fn main() {
 
     // ---------------------------------------------------------------- parse
     for (label, source) in all_compositions.iter().map(|(l, s)| (*l, s.clone())).chain([("missing-file", String::new())]) {
-        if !mine(&mut idx) {
+        let tag = format!("{label}|{}", source.len());
+        if !mine(&mut idx) || !wanted(&tag) {
             continue;
         }
         ctx.n += 1;
@@ -638,7 +686,7 @@ fn main() {
             let c: &str = Box::leak(c.into_boxed_str());
             Document::parse(c).ok().map(|d| serde_json::to_string_pretty(&d).unwrap().into_bytes())
         });
-        let mut f: Vec<String> = vec![esc("input.wac"), match &json {
+        let mut f: Vec<String> = vec![esc(&tag), esc("input.wac"), match &json {
             Some(j) => format!("J{}", ctx.intern.tok(j)),
             None => "-".into(),
         }];
